@@ -62,10 +62,9 @@ func (c *GenericNumberState) NextToken(
 		}
 	}
 
-	// Unread last unprocessed symbol.
-	if !utilities.CharValidator.IsEof(nextSymbol) {
-		scanner.Unread()
-	}
+	// Unread last unprocessed symbol (at the end of the input that is the
+	// end-of-input slot, which the scanner consumed as well).
+	scanner.Unread()
 
 	// Process the result.
 	if !gotADigit {
